@@ -646,6 +646,8 @@ fn geoms(g: &mut G) -> LefLibrary {
         LefGeometry::Shape(LefShape::Path(None, poly_points(npath))),
         LefGeometry::Shape(LefShape::Path(Some(LefMask { mask: d("1") }), poly_points(3))),
         LefGeometry::Iterate { shape: LefShape::Path(None, poly_points(2)), pattern: pat2 },
+        // a rectangle stated upper-right corner first
+        LefGeometry::Shape(LefShape::Rect(None, pt("0.53", "0.54"), pt("0.51", "0.52"))),
     ];
     let mut vias = vec![
         LefVia { via_name: g.name("via12", "geoms.vianame"), pt: g.point("1.5", "2.5", "geoms.vx", "geoms.vy") },
